@@ -45,7 +45,7 @@ def gen(ch, tier):
             mtu = plen + head + 100                  # fits
         blocks = []
         for bix in range(ch.weighted('next', (3, 3, 2, 1))):
-            blocks.append(dict(type=ch.choice('bt', (192, 193, 7)), flags=ch.choice('bf', (0, 1, 1)), crc_type=ch.pick('bc', 3),
+            blocks.append(dict(type=ch.choice('bt', (192, 193, 7)), flags=ch.choice('bf', (0, 1, 1, 0x11, 0x03, 0x10)), crc_type=ch.pick('bc', 3),
                                blen=ch.choice('bl', (1, 5, 23, 24, 60))))
         mtu_rel = None
         if mtu is None:
